@@ -119,6 +119,8 @@ def build_unit(sidecar_path, sources, variant=None):
     rules = list(sc.get("rewrites", []))
     if "R4" not in rules:
         rules.append("R4")
+    if "R44" not in rules:
+        rules.append("R44")
     default_src = sc.get("source", "expanded")
     if sc.get("compose"):
         for f in sc.get("fn", []) + sc.get("arm", []) + sc.get("closure_fn", []):
